@@ -176,6 +176,7 @@ class SimNode(object):
         req['_t'] = net.world.now
         self.log.append(req)
         net.wire_log.append(req)
+        net.events.append(('node_recv', cstate.conn.sim_id, req['stream'], req['op'], net.world.now))
         cstate.outstanding[req['stream']] = req
         if req['version'] not in self.supported_versions:
             top = max(v for v in self.supported_versions if v < 0x40) if any(v < 0x40 for v in self.supported_versions) else 4
@@ -294,6 +295,11 @@ class SimNet(object):
         return conn.sim_id
 
     def send(self, conn, data):
+        try:
+            stream = F.split_header(data)[2]
+        except Exception:
+            stream = None
+        self.events.append(('node_send', conn.sim_id, stream, self.world.now))
         if conn.is_closed:
             return
         self.inbound[conn.sim_id].append(('data', bytes(data)))
